@@ -31,7 +31,7 @@ PLAN = {
               "Oracle: no panic (a panic recovered by baseapp/ante as ErrPanic counts as a panic). non-trivial = the input was decoded into typed messages / reached a "
               "method selector / parser; distinct = distinct (kind, type or method, outcome class). (B) see fee_rule keys."),
         assumptions=["Must*-style helpers that panic by contract are only reached with validated input (they are not called directly)"],
-        quick=[dict(test="TestC20A", cases=24000, shards=8, timeout=600)],
-        thorough=[dict(test="TestC20A", cases=960000, shards=16, timeout=3000, shrink=120)],
+        quick=[dict(test="TestC20A", cases=24000, shards=8, timeout=600), dict(test="TestC20B", cases=4000, shards=8, timeout=600)],
+        thorough=[dict(test="TestC20A", cases=960000, shards=12, timeout=3000, shrink=120), dict(test="TestC20B", cases=120000, shards=4, timeout=3000, shrink=120)],
     ),
 }
